@@ -261,11 +261,16 @@ func (e *explainer) solveBodyRec(premises []ast.Term, uf unionfind.UnionFind, de
 	case ast.Atom:
 		return e.solveAtomPremise(p, rest, uf, depth, need, accAtoms, accProofs, partial)
 	case ast.Eq:
-		ok, err := evalEq(p.Left, p.Right, uf, true)
-		if err != nil || !ok {
+		// An equality may bind a variable that only occurs in the body.
+		left, right, err := functional.EvalBaseTermPair(p.Left, p.Right, uf)
+		if err != nil {
 			return nil
 		}
-		return e.solveBodyRec(rest, uf, depth, need, accAtoms, accProofs, partial)
+		nuf, err := unionfind.UnifyTermsExtend([]ast.BaseTerm{left}, []ast.BaseTerm{right}, uf)
+		if err != nil {
+			return nil
+		}
+		return e.solveBodyRec(rest, nuf, depth, need, accAtoms, accProofs, partial)
 	case ast.Ineq:
 		ok, err := evalEq(p.Left, p.Right, uf, false)
 		if err != nil || !ok {
